@@ -36,7 +36,15 @@ class EFLRSetsDict(defaultdict):
     def try_add_set(self, eflr_set: EFLRSet) -> bool:
         """Try to register a new EFLRSet instance in the structure. Return True on success, False otherwise."""
 
-        if eflr_set.set_name in self[eflr_set.__class__]:
+        set_dict = self[eflr_set.__class__]
+        if set_dict and not any(s.n_items for s in set_dict.values()):
+            # only empty sets of this type so far (left by calls which did not manage to add an item);
+            # do not let them determine the position of the type among the other types
+            self[eflr_set.__class__] = self.pop(eflr_set.__class__)
+        if eflr_set.set_name in set_dict:
+            if not set_dict[eflr_set.set_name].n_items:
+                # same for the position of an empty set among the sets of its type
+                set_dict[eflr_set.set_name] = set_dict.pop(eflr_set.set_name)
             return False
         else:
             self[eflr_set.__class__][eflr_set.set_name] = eflr_set
